@@ -74,6 +74,28 @@ class DuckStream:
         return self._b.tell()
 
 
+class ReadOnlyStream:
+    """read() and nothing else: a network response, the read end of a pipe (a file-like object that cannot be rewound)."""
+
+    def __init__(self, data, pipe=False):
+        self._b, self._pipe = io.BytesIO(data), pipe
+
+    def read(self, n=-1):
+        return self._b.read(n)
+
+    def __getattr__(self, name):
+        if self._pipe and name in ("seek", "tell", "seekable"):
+            # like the read end of a pipe: the methods exist, seekable() says no, seek() raises
+            if name == "seekable":
+                return lambda: False
+
+            def refuse(*a, **k):
+                raise io.UnsupportedOperation("File or stream is not seekable.")
+
+            return refuse
+        raise AttributeError(name)
+
+
 def make_image(rec):
     """Recipe -> bytes.  Pillow encodes the pixels; the resolution fields are written by hand."""
     from PIL import Image
@@ -401,6 +423,10 @@ class Run:
             return p
         if via["how"] == "stream-reused" and i in self.streams:
             return self.streams[i]  # already read to its end by an earlier addition
+        if via["how"] in ("stream-readonly", "stream-pipe"):
+            # fresh for every addition: it cannot be rewound, so it can be read once
+            self.acc.count("additions_from_a_stream_that_cannot_seek")
+            return ReadOnlyStream(self.images[i], pipe=via["how"] == "stream-pipe")
         if via["how"] == "stream-duck":
             # a file-like object that is not an io class (an upload wrapper): read / seek / tell only, the caller has already
             # peeked at its first bytes, and the same object is handed in again for later additions of this image
@@ -663,7 +689,7 @@ def gen_history(i):
         fmt = recipes[k]["fmt"]
         r = rnd.random()
         if r < 0.3:
-            return {"how": rnd.choice(["stream", "stream", "stream-reused", "stream-duck"])}
+            return {"how": rnd.choice(["stream", "stream", "stream-reused", "stream-duck", "stream", "stream", "stream-reused", "stream-duck", "stream-readonly", "stream-pipe"])}
         right = sorted(EXTS[fmt])[0]
         ext = rnd.choice([right, right, right.upper(), "", "dat"] + [sorted(EXTS[f])[-1] for f in FORMATS if f != fmt])
         return {"how": "path" if rnd.random() < 0.7 else "path-shared", "name": rnd.choice(stems) + ("." + ext if ext else "")}
